@@ -1,52 +1,72 @@
 #!/usr/bin/env python3
-"""Run every registered check against every seeded mutant (in a scratch worktree, never in /repo) and record which checks fire.
-usage: seed_matrix.py [seed ...]   -> writes /verif/seeded/MATRIX.json"""
+"""Run every registered check against every seeded mutant (in scratch worktrees, never in /repo) and record which checks fire.
+usage: seed_matrix.py [--redo] [--jobs N] [seed ...]   -> writes /verif/seeded/MATRIX.json"""
 import json, os, subprocess, sys, time
+from concurrent.futures import ThreadPoolExecutor
 HERE = os.path.dirname(os.path.abspath(__file__))
 VERIF = os.path.dirname(HERE)
 sys.path.insert(0, HERE)
 import registry
-
-WT = "/tmp/matrix-repo"
-CACHE = "/tmp/matrix-cache"
 
 
 def sh(cmd, **kw):
     return subprocess.run(cmd, shell=True, stdout=subprocess.PIPE, stderr=subprocess.STDOUT, text=True, **kw)
 
 
-def main():
-    seeds = [a for a in sys.argv[1:] if not a.startswith("--")] or sorted(d for d in os.listdir(os.path.join(VERIF, "seeded")) if os.path.isdir(os.path.join(VERIF, "seeded", d)))
-    sh("git -C /repo worktree remove --force %s" % WT)
-    r = sh("git -C /repo worktree add -q --detach %s HEAD" % WT)
+def run_seed(sd, slot):
+    wt, cache, ev = "/tmp/matrix-repo-%d" % slot, "/tmp/matrix-cache-%d" % slot, "/tmp/matrix-evidence-%d" % slot
+    env = dict(os.environ, VERIF_REPO=wt, VERIF_CACHE=cache, VERIF_EVIDENCE=ev)
+    patch = os.path.join(VERIF, "seeded", sd, "patch.diff")
+    sh("git -C %s checkout -q -- . && git -C %s clean -fdq" % (wt, wt))
+    r = sh("git -C %s apply --whitespace=nowarn %s" % (wt, patch))
     if r.returncode:
-        print(r.stdout); return 1
-    env = dict(os.environ, VERIF_REPO=WT, VERIF_CACHE=CACHE, VERIF_EVIDENCE="/tmp/matrix-evidence")
+        return sd, {"applies": False, "note": r.stdout.strip()[:200]}
+    fired = {}
+    t0 = time.time()
+    for pid in sorted(registry.CHECKS):
+        r = subprocess.run([os.path.join(VERIF, "check"), pid], env=env, cwd=VERIF, stdout=subprocess.PIPE, stderr=subprocess.STDOUT, text=True)
+        rules = sorted({l.split("rule=")[1].split(" ")[0] for l in r.stdout.splitlines() if l.strip().startswith("rule=")})
+        if rules:
+            fired[pid] = rules
+    return sd, {"applies": True, "fired": fired, "own_property_fires": sd[:3] in fired, "secs": round(time.time() - t0)}
+
+
+def main():
+    args = [a for a in sys.argv[1:] if not a.startswith("--")]
+    jobs = 4
+    if "--jobs" in sys.argv:
+        jobs = int(sys.argv[sys.argv.index("--jobs") + 1])
+        args = [a for a in args if a != str(jobs)]
+    seeds = args or sorted(d for d in os.listdir(os.path.join(VERIF, "seeded")) if os.path.isdir(os.path.join(VERIF, "seeded", d)))
     out_p = os.path.join(VERIF, "seeded", "MATRIX.json")
-    matrix = json.load(open(out_p)) if os.path.exists(out_p) else {}
+    matrix = json.load(open(out_p)) if os.path.exists(out_p) and "--redo" not in sys.argv else {}
+    seeds = [s for s in seeds if not (s in matrix and matrix[s].get("applies"))] if "--redo" not in sys.argv else seeds
+    for i in range(jobs):
+        sh("git -C /repo worktree remove --force /tmp/matrix-repo-%d" % i)
+        r = sh("git -C /repo worktree add -q --detach /tmp/matrix-repo-%d HEAD" % i)
+        if r.returncode:
+            print(r.stdout); return 1
+    import queue
+    slots = queue.Queue()
+    for i in range(jobs):
+        slots.put(i)
+
+    def work(sd):
+        slot = slots.get()
+        try:
+            return run_seed(sd, slot)
+        finally:
+            slots.put(slot)
     try:
-        for sd in seeds:
-            if sd in matrix and matrix[sd].get("applies") and "--redo" not in sys.argv:
-                continue
-            patch = os.path.join(VERIF, "seeded", sd, "patch.diff")
-            sh("git -C %s checkout -q -- . && git -C %s clean -fdq" % (WT, WT))
-            r = sh("git -C %s apply --whitespace=nowarn %s" % (WT, patch))
-            if r.returncode:
-                matrix[sd] = {"applies": False, "note": r.stdout.strip()[:200]}
-                print(sd, "DOES NOT APPLY"); continue
-            fired = {}
-            t0 = time.time()
-            for pid in sorted(registry.CHECKS):
-                r = subprocess.run([os.path.join(VERIF, "check"), pid], env=env, cwd=VERIF, stdout=subprocess.PIPE, stderr=subprocess.STDOUT, text=True)
-                rules = sorted({l.split("rule=")[1].split(" ")[0] for l in r.stdout.splitlines() if l.strip().startswith("rule=")})
-                if rules:
-                    fired[pid] = rules
-            matrix[sd] = {"applies": True, "fired": fired, "own_property_fires": sd[:3] in fired, "secs": round(time.time() - t0)}
-            print(sd, {k: v[:3] for k, v in fired.items()}, flush=True)
-            json.dump(matrix, open(out_p, "w"), indent=1, sort_keys=True)
+        with ThreadPoolExecutor(jobs) as ex:
+            for sd, res in ex.map(work, seeds):
+                matrix[sd] = res
+                print(sd, {k: v[:3] for k, v in res.get("fired", {}).items()} if res.get("applies") else "DOES NOT APPLY", flush=True)
+                json.dump(matrix, open(out_p, "w"), indent=1, sort_keys=True)
     finally:
-        sh("git -C /repo worktree remove --force %s" % WT)
-        sh("rm -rf %s /tmp/matrix-evidence" % CACHE)
+        for i in range(jobs):
+            sh("git -C /repo worktree remove --force /tmp/matrix-repo-%d" % i)
+            sh("rm -rf /tmp/matrix-cache-%d /tmp/matrix-evidence-%d" % (i, i))
     return 0
 
 
